@@ -17,6 +17,7 @@
                           abstract document and every spelling of it (pieces, CDATA interleaving,
                           empty-element tags, all positions) `parse_fragment` / `parse` on its tokens
                           yields exactly that document
+    C02_fragment_spelled  parse_fragment(t) and parse(<w>t</w>) read back as the same content
   Closed examples (token lists of the real tokenizer, replayed on the implementation by the
   `build` suite) accompany each of them.
 -/
@@ -193,6 +194,29 @@ theorem C02_spelled_document {env : Env} (h : EnvBase env) (len : Nat) (sns : Li
   refine ⟨p, hb, by rw [ht]; rfl, ?_⟩
   rw [ht, he]
   exact decodeList_encodeList _ env _ (EnvExt.refl _)
+
+/-- C02_fragment (spelled, namespace-free): `parse_fragment` of a text and `parse` of the same text
+    wrapped in one element `<w>…</w>` denote the same content — the fragment's nodes read back as
+    `ds`, the wrapped document reads back as the single element `w` with children `ds`. -/
+theorem C02_fragment_spelled {env : Env} (h : EnvBase env) (len len' : Nat) (sns : List SNode)
+    (hw : SNode.Well.wellList sns) (hadj : noAdjChars sns = true)
+    (w : StrSpan) (pstart : Nat) (junk openSp : StrSpan) (cw : StrSpan) (cpstart : Nat) (closeSp : StrSpan)
+    (hcw : cw.text = w.text) :
+    ∃ p pw, build .fragment len env (SNode.tokens.tokensList sns) none = .ok p ∧
+      build .document len' env (SNode.elem w pstart junk [] openSp sns cw cpstart closeSp).tokens none = .ok pw ∧
+      decodeTree.decodeList p.env p.tree.kids = some ((SNode.denote.denoteList sns).map Sum.inr) ∧
+      decodeTree.decodeList pw.env pw.tree.kids =
+        some [Sum.inr (.elem w.text [] (SNode.denote.denoteList sns))] := by
+  obtain ⟨p, hp, _, hdp⟩ := C02_spelled_fragment h len sns hw hadj
+  have hwell : SNode.Well.wellList [SNode.elem w pstart junk [] openSp sns cw cpstart closeSp] :=
+    ⟨⟨⟨fun a ha => by simp at ha, List.nodup_nil⟩, hcw, hadj, hw⟩, trivial⟩
+  obtain ⟨pw, hpw, _, hdw⟩ := C02_spelled_document h len' [SNode.elem w pstart junk [] openSp sns cw cpstart closeSp]
+    hwell rfl ⟨rfl, fun d hd => by
+      simp only [SNode.denote.denoteList, SNode.denote, List.append_nil, List.mem_singleton] at hd
+      subst hd; rfl⟩
+  refine ⟨p, pw, hp, ?_, hdp, ?_⟩
+  · simpa [SNode.tokens.tokensList] using hpw
+  · simpa [SNode.denote.denoteList, SNode.denote] using hdw
 
 /-- The tables of a fresh `Xot` satisfy the hypothesis. -/
 theorem C02_envBase_fresh : EnvBase Env.fresh := ⟨rfl, ⟨['i', 'd'], 1, rfl, by decide⟩⟩
